@@ -178,11 +178,15 @@ func (s *Syncer[H]) localHead(ctx context.Context) (H, error) {
 	// pending head is the latest known subjective head and a sync target
 	// if it is empty, no sync is in progress
 	pendHead := s.pending.Head()
-	if !pendHead.IsZero() {
+	// the latest stored/synced head
+	head, err := s.store.Head(ctx)
+	if !pendHead.IsZero() && (err != nil || pendHead.Height() > head.Height()) {
 		return pendHead, nil
 	}
-	// if pending is empty - get the latest stored/synced head
-	head, err := s.store.Head(ctx)
+	// pending is empty, or the store got ahead of it: a header enters pending after the check that it is
+	// not stored yet, and meanwhile gossip or Head() callers may have stored it and its successors directly.
+	// Such a stale entry must not become the subjective head again: new heads would be verified against it,
+	// and a sibling of an already stored header would pass as adjacent.
 	if err != nil {
 		return head, fmt.Errorf("local store head: %w", err)
 	}
